@@ -25,7 +25,7 @@ func profC07(t *tape.Tape) model.Profile {
 		PrefixTraps: t.Chance(1, 3), Posix: t.Sub("posix").Chance(1, 4),
 		Mods: [2]int{2, 5}, Subs: [2]int{0, 3}, Typedefs: [2]int{0, 2}, Identities: [2]int{0, 1}, Groupings: [2]int{0, 3},
 		TopNodes: [2]int{1, 4}, Augments: [2]int{1, 10}, Deviations: [2]int{0, 0}, Depth: 3,
-		Invalid: []string{model.InvAugMissing, model.InvAugLeaf, model.InvAugCollision, model.InvAugCollisionOwn, model.InvDupUses}, InvalidPct: 8, MaxInvalid: 1,
+		Invalid: []string{model.InvAugMissing, model.InvAugLeaf, model.InvAugCollision, model.InvAugCollisionOwn, model.InvAugBadPrefix, model.InvDupUses}, InvalidPct: 8, MaxInvalid: 1,
 		OrderTraps: true, Extras: t.Chance(1, 2),
 		// at most one augment per scenario whose path runs through an implicit
 		// case (it finds its target only after implicit-case insertion)
